@@ -11,6 +11,10 @@ from typing import Callable, Optional
 
 from .model import dotted
 
+
+def call_name_of(n):
+    return dotted(n.func) if isinstance(n, ast.Call) else None
+
 Mono = tuple  # tuple of (atom:str, exp:Fraction) sorted by atom
 
 
@@ -172,6 +176,14 @@ PI = "π"
 
 IDENTITY_CALLS = {"float", "np.asarray", "xp.asarray", "np.array", "xp.array", "np.float32", "np.float64",
                   "asarray", "np.ascontiguousarray"}
+# the same casts under any array-module alias (xp = get_array_module(...), cp, ...)
+IDENTITY_SHORT = {"asarray", "array", "ascontiguousarray", "float32", "float64", "asanyarray"}
+ARRAY_MODULE_NAMES = {"np", "xp", "cp", "da", "numpy", "cupy", "math", "scipy"}
+
+
+def is_array_module(name: str) -> bool:
+    """np / xp / cp / ... or a renamed local of the same role (xp_r, xp2)."""
+    return name in ARRAY_MODULE_NAMES or name.startswith("xp")
 
 
 class Normalizer:
@@ -192,6 +204,10 @@ class Normalizer:
     def atom(self, name: str) -> Poly:
         return Poly.atom(self.alias.get(name, name))
 
+    def _is_module_local(self, name: str) -> bool:
+        """Overridden by flow-aware normalisers: is `name` a local bound to get_array_module(...)?"""
+        return False
+
     def norm(self, n: ast.AST) -> Poly:
         if isinstance(n, ast.Constant):
             if isinstance(n.value, bool):
@@ -209,8 +225,8 @@ class Normalizer:
             return self._name(n.id)
         if isinstance(n, ast.Attribute):
             d = dotted(n)
-            if d in ("np.pi", "numpy.pi", "math.pi", "xp.pi"):
-                return Poly.atom(PI)
+            if n.attr == "pi":
+                return Poly.atom(PI)  # np.pi / xp.pi / math.pi / get_array_module(x).pi under any alias
             if d is not None:
                 return self._name(d)
             return Poly.atom(self.opaque(n))
@@ -272,6 +288,9 @@ class Normalizer:
         """Canonical text of an opaque expression with sub-terms normalised where possible."""
         if isinstance(n, ast.Call):
             fn = dotted(n.func) or self.opaque(n.func)
+            if isinstance(n.func, ast.Attribute) and isinstance(n.func.value, ast.Name) and (
+                    is_array_module(n.func.value.id) or self._is_module_local(n.func.value.id)):
+                fn = "xp." + n.func.attr  # canonical spelling of an array-module function
             args = [self.norm(a).key() for a in n.args if not isinstance(a, ast.Starred)]
             args += [f"*{ast.unparse(a.value)}" for a in n.args if isinstance(a, ast.Starred)]
             kws = sorted(f"{k.arg}={self.norm(k.value).key()}" for k in n.keywords if k.arg)
@@ -301,7 +320,9 @@ class Normalizer:
                 return r
         fn = dotted(n.func)
         short = fn.split(".")[-1] if fn else None
-        if fn in self.identity_calls and len(n.args) >= 1:
+        recv_is_module = isinstance(n.func, ast.Attribute) and isinstance(n.func.value, ast.Name) and (
+            is_array_module(n.func.value.id) or self._is_module_local(n.func.value.id))
+        if (fn in self.identity_calls or (recv_is_module and short in IDENTITY_SHORT)) and len(n.args) >= 1:
             self.flags.add(f"cast:{fn}")
             return self.norm(n.args[0])
         if isinstance(n.func, ast.Attribute) and n.func.attr == "astype":
@@ -358,6 +379,14 @@ class FlowNormalizer(Normalizer):
         self._at = [node_idx]
         self.extra: dict[str, ast.expr] = {}
         self.no_inline: set[str] = set()
+
+    def _is_module_local(self, name: str) -> bool:
+        try:
+            d = self.df.single_def(self._at[-1], name)
+        except Exception:
+            return False
+        return d is not None and isinstance(d.value, ast.Call) and (call_name_of(d.value) or "").endswith(
+            "get_array_module")
 
     def _name(self, name: str) -> Poly:
         if name in self.extra:
